@@ -3,6 +3,7 @@ import SgVerif.C27.Model
 C27 — helper lemmas: association lists, the digit scanner.
 -/
 namespace SgVerif.C27
+open SgVerif.Xbt
 
 theorem lookup_none_of_not_mem (t : Table) (u : String) (h : u ∉ t.map Prod.fst) : t.lookup u = none := by
   induction t with
